@@ -376,4 +376,31 @@ PROPS["C16"] = {
     },
 }
 
+PROPS["C06"] = {
+    "lean": ["TinkVerif.Props.C06"],
+    "theorems": T("TinkVerif.Hpke", "computeNonce_zero open_sealWith sealWith_layout open_short open_iff fullOpen_fullSeal "
+                  "fullOpen_wrong_prefix labelInfo_injective labelInfo_length_prefix eciesOpen_eciesSeal eciesOpen_short suite_id_layout"),
+    "harness": [{"name": "c06", "pre": True, "timeout": 3000}],
+    "rule": "every HPKE suite tink-go admits (KEM P-256/384/521/X25519/X-Wing/ML-KEM-768/1024 × KDF × AEAD) and the ECIES grid (curve × "
+            "hash × point format × DEM AES-GCM/AES-CTR-HMAC/AES-SIV × salt), all variants; Go Encrypt → the Lean model decrypts with the "
+            "private key bytes using its own DH, key schedule and AEAD; the Lean model encrypts with a harness-chosen ephemeral scalar "
+            "(two-phase) → Go Decrypt; for ML-KEM and the ML-KEM half of X-Wing the shared secret is taken from Go's crypto/mlkem and "
+            "passed on the line; mutations of prefix / enc / ct / tag, cut points, other private key, changed and empty context info → both "
+            "reject; non-trivial = every line, distinct by line hash",
+    "trusted_base": [KERNEL, TIE, PRIMS, "crypto/mlkem (stdlib) supplies ML-KEM shared secrets; H_kem (decap∘encap) is a hypothesis of the "
+                     "round-trip theorem"],
+    "assumptions": ["H_kem: Diffie-Hellman commutativity / KEM correctness is assumed (named hypothesis KemLaw), exercised by the "
+                    "two-way correspondence", "compressed-point square roots are reference code"],
+    "manifest": {
+        "text": "Theorems for every KEM, MAC and raw AEAD: HPKE decrypt∘encrypt = id under KemLaw and the raw AEAD law, wire layout enc‖ct "
+                "with |enc| = Nenc, exact acceptance characterisation (decap succeeds and the tag verifies under the key scheduled from "
+                "the decapsulated secret and the context info), first nonce = base nonce, labelInfo length prefix and injectivity in info "
+                "(context binding at the encoding level), prefix framing, ECIES framing round trip. Tie: tink-go ciphertexts decrypted by "
+                "the Lean RFC 9180 / ECIES implementation and vice versa, with mutations.",
+        "design_ref": "DESIGN.md §5.6",
+        "note": "Trusted: Lean kernel; reference curves/hashes/AEADs; ML-KEM from stdlib; H_kem named.",
+        "technique": "Lean 4 proof (round trip under H_kem, characterisation, label laws) + two-way Go/Lean ciphertext correspondence",
+    },
+}
+
 NOT_BUILT = {}
